@@ -6,6 +6,8 @@ LEAK_DEVS = {A_DEV, "Dev_C37_LocalBlockWantLeak", "Dev_C37_BroadcastAfterCancel"
              "Dev_C37_WantAfterDelivery", F_DEV}
 PKG = "bitswap/testinstance"
 HARNESS = ["bitswap/testinstance/zz_verif_C37_test.go"]
+GPKG = "bitswap/client/internal/getter"
+GHARNESS = ["bitswap/client/internal/getter/zz_verif_C37_test.go"]
 
 META = dict(
     spec="BitswapNet",
@@ -17,7 +19,12 @@ META = dict(
                 "liveness under fairness, the as-built configurations must fail (controls reproducing the recorded findings). "
                 "TLC-generated caller behaviours (placements, duplicate keys, shared sessions, cancel points, late and local block arrival) "
                 "are replayed on real testinstance/VirtualNetwork nodes and every recorded event of those runs and of random concurrent "
-                "2-6 node runs is validated by TLC against BitswapNet."),
+                "2-6 node runs is validated by TLC against BitswapNet.  Sub-step orders: the protocol model has the session shutdown "
+                "(remove-session vs stop-the-want-sender) and the getter call (subscribe vs want) as separate sub-steps whose order is a "
+                "switch; the wrong orders must violate Cleanup / Liveness.  Getter.tla states the resulting obligation at the getter's "
+                "interface; histories of the real getter on the real PubSub, with the harness publishing at every sub-step boundary, are "
+                "validated against it.  A gated family of strict scripts (one call, one key, one source) parks the real want sender in "
+                "the middle of a step (through a logging core), cancels there and lets the session loop shut down meanwhile."),
     level_note=("Trusted: testnet.VirtualNetwork, mock routing, harness projection (CID<->index, peer<->node, byte equality) and its event "
                 "order (run mutex; Request/AddBlock/Cancel logged before the call, Deliver/Close after). Liveness on real code is a deadline "
                 "(60 s: the message queue re-sends a want 30-45 s after it was sent); want-list cleanup is read after a settle loop (10 s). Open findings are named deviations whose guards state the mechanism of the race."),
@@ -28,7 +35,7 @@ META = dict(
 def _par(tasks):
     """run callables concurrently (TLC JVMs + go build are independent processes)"""
     res, errs = {}, []
-    sem = threading.Semaphore(6)
+    sem = threading.Semaphore(8)
     def wrap(k, f):
         with sem:
             try:
@@ -80,6 +87,14 @@ def run(ctx):
     gen = lambda cfg, **kw: (lambda: ctx.tlc_gen("BitswapNet", "GenBitswapNet.tla", cfg, timeout=1500, **kw))
     tasks = {
         "build": lambda: ctx.go_build(PKG, HARNESS),
+        # getter level: model, control (want before subscribe must lose a publication), real getter vs TraceGetter
+        "getterMC": lambda: ctx.tlc_mc("BitswapNet", "Getter.tla", "MCGetter.cfg", timeout=1500, deadlock=False, workers=2),
+        "getterWF": lambda: ctx.tlc_mc("BitswapNet", "Getter.tla", "MCGetterWantFirst.cfg", timeout=1500, deadlock=False, workers=1,
+                                       expect_violation=True),
+        "getterT": lambda: _getter(ctx),
+        # sub-steps of the session shutdown: RemoveSession before the sender has stopped must leak
+        "fixOne": mc("MCProtoOne.cfg" if q else "MCProtoRaceLive.cfg"),
+        "abRemoveFirst": mc("MCProtoOneRemoveFirst.cfg", expect_violation=True),
         # repaired design: contract invariants + Cleanup at quiescence (quick) / + liveness under fairness (thorough)
         "fixTwo": mc("MCProtoTwo.cfg" if q else "MCProtoTwoLive.cfg"),
         "fixLate": mc("MCProtoLate.cfg" if q else "MCProtoLateLive.cfg"),
@@ -104,13 +119,17 @@ def run(ctx):
             "adeTwo": mc("MCProtoTwoADE.cfg", expect_violation=True),
             "adeLate": mc("MCProtoLateADE.cfg", expect_violation=True),
             "absNet": lambda: ctx.tlc_mc("BitswapNet", "BitswapNet.tla", "MCBitswapNet.cfg", timeout=1500, deadlock=False),
+            "fixOneC": mc("MCProtoOne.cfg"),
+            # sub-steps of the getter call: want before Subscribe loses the block that answers it
+            "abWantFirst": mc("MCProtoRaceWantFirstLive.cfg", expect_violation=True),
             "gDeep": gen("GenBitswapNetDeep.cfg"),
             "gSim": gen("GenBitswapNetSim.cfg", simulate=40, depth=9 * 12 + 1),
         })
     res = _par(tasks)
     # controls: the as-built model must violate what the recorded findings say it violates
     want = {"abLocal": "Cleanup", "abTwo": "Cleanup", "abExh": "Cleanup", "abLate": "Cleanup", "adeTwo": "Cleanup",
-            "adeLate": "Cleanup", "abShared": "Temporal", "adeShared": "Temporal", "abCross": "Temporal"}
+            "adeLate": "Cleanup", "abShared": "Temporal", "adeShared": "Temporal", "abCross": "Temporal",
+            "abRemoveFirst": "Cleanup", "abWantFirst": "Temporal", "getterWF": "NoLostPublication"}
     for k, what in want.items():
         if k in res and not (res[k]["violated"] and what in res[k]["violated"]):
             ctx.broken("control %s: the as-built protocol model should violate %s, TLC says %s" % (k, what, res[k]["violated"]))
@@ -148,12 +167,25 @@ def run(ctx):
 
     # ---------------------------------------------------------------- T
     nruns = 24 if q else 240
+    ngate = 8 if q else 60
     def record():
-        return ctx.go_run(binp, "TestVerifC37", pkg=PKG, mode="record", env=dict(env, C37_RUNS=nruns), timeout=1500)
+        r1, o1, rc1 = ctx.go_run(binp, "TestVerifC37", pkg=PKG, mode="record", env=dict(env, C37_RUNS=nruns), timeout=1500)
+        if rc1 != 0 or not r1:
+            return r1, o1, rc1
+        # gated family: strict scripts, the want sender parked in the middle of a step while the request is cancelled
+        r2, o2, rc2 = ctx.go_run(binp, "TestVerifC37", pkg=PKG, mode="record",
+                                 env=dict(env, C37_RUNS=ngate, C37_FAMILY="gate", C37_PAR=3), timeout=1500)
+        return r1 + (r2 or []), o1 + o2, (rc2 if r2 else (rc2 or 1))
     recs, out, rc = record()
     if rc != 0 or not recs:
         ctx.broken("record driver died: " + out[-1500:])
         return
+    import re as _re
+    hits = [int(x) for x in _re.findall(r"C37_GATE_HITS (\d+)", out)]
+    if not hits or hits[-1] == 0:
+        ctx.broken("gated family: the want-sender gate never fired (log statement gone?): the family is vacuous")
+        return
+    ctx.log("gated family: %d runs, gate fired %d times" % (ngate, hits[-1]))
     for run_ in _runs(recs):
         evs = [e["ev"] for e in run_]
         if evs.count("Deliver") >= 2 and ("Cancel" in evs or "AddBlock" in evs):
@@ -161,6 +193,50 @@ def run(ctx):
     ctx.sample([e for e in _runs(recs)[0] if e["ev"] != "Snapshot"][:12])
     # the events of the replayed scripts (G) and of the random runs (T) are validated in one TLC run
     _validate(ctx, grecs, recs, record)
+
+
+def _getter(ctx):
+    """getter level (T): histories of the real getter.AsyncGetBlocks on the real PubSub against Getter.tla"""
+    binp = ctx.go_build(GPKG, GHARNESS)
+    recs, out, rc = ctx.go_run(binp, "TestVerifC37Getter", pkg=GPKG, mode="record", timeout=900)
+    if rc != 0 or not recs:
+        ctx.broken("getter record driver died: " + out[-1500:])
+        return
+    def val(rs, name):
+        return ctx.tlc_trace("BitswapNet", "TraceGetter.tla", "TraceGetter.cfg", ctx.write_ndjson(name + ".ndjson", rs),
+                             timeout=1200, trace_name="gtrace.ndjson")
+    res = val(recs, "getter_trace")
+    if res["timeout"] or res.get("spec_error"):
+        ctx.broken("getter trace validation failed to run: %s" % (res.get("spec_error") or "timeout")[-1500:])
+        return
+    if not res["accepted"]:
+        h = min(res["hwm"], len(recs) - 1)
+        j = h - 1 if res["violated"] and h > 0 else h      # an invariant is violated by the state AFTER the last consumed event
+        start = max([i for i in range(0, j + 1) if recs[i].get("ev") == "Reset"] or [0])
+        ctx.violation("recorded getter history rejected by TraceGetter at event %d: %s (invariant=%s)" % (
+            j + 1, json.dumps(recs[j])[:300], res["violated"]),
+            dict(rejected_event_index=j, event=recs[j], invariant=res["violated"], run_prefix=recs[start:j + 2]),
+            name="getter_trace_reject.json")
+        return
+    nruns = sum(1 for r in recs if r["ev"] == "Reset")
+    ctx.cov["traces_validated_against_impl"] += nruns
+    ctx.cov["evaluations"] += len(recs)
+    for run_ in _runs(recs):
+        evs = [e["ev"] for e in run_]
+        if evs.count("Deliver") >= 1 and "Cancel" in evs and evs.count("Call") >= 2:
+            ctx.nontrivial(run_)
+    # negative control: a block delivered twice must be rejected there
+    idx = [i for i, r in enumerate(recs) if r["ev"] == "Deliver"]
+    if not idx:
+        ctx.broken("getter negative control: no Deliver event recorded")
+        return
+    i = idx[len(idx) // 2]
+    end = min([k for k in range(i + 1, len(recs)) if recs[k]["ev"] == "Reset"] or [len(recs)])
+    bad = [dict(r) for r in recs[:i + 1]] + [dict(recs[i])] + [dict(r) for r in recs[i + 1:end]]
+    r3 = val(bad, "getter_trace_neg")
+    if r3["accepted"] or r3["violated"] != "OnlyOwedDeliveries" or r3["hwm"] not in (i + 1, i + 2):
+        ctx.broken("getter negative control (duplicate Deliver) not rejected where expected: accepted=%s violated=%s hwm=%s want=%s"
+                   % (r3["accepted"], r3["violated"], r3["hwm"], i + 1))
 
 
 def _accept(ctx, recs, name):
